@@ -23,6 +23,8 @@ import (
 // fails the rule that needs it (as before).
 
 type baseFn struct {
+	Bool     string   `json:"bool_atom,omitempty"`  // what a pure boolean helper stands for
+	Value    string   `json:"value_term,omitempty"` // what a pure value helper returns
 	Name     string   `json:"name"`
 	Pkg      string   `json:"pkg"`
 	Recv     string   `json:"recv,omitempty"`
@@ -86,10 +88,11 @@ func namedTypes(prog *ssa.Program) map[string]types.Type {
 func rawQual(p *types.Package) string { return strings.TrimPrefix(p.Path(), modPrefix) }
 
 var (
-	baselineFns  map[string]bool // nil: no baseline loaded
-	baselinePath string
-	fnAlias      = map[*ssa.Function]string{}
-	fieldAlias   = map[*types.Var]string{}
+	baselineFns       map[string]bool // nil: no baseline loaded
+	baselineTemplates = map[string]baseFn{}
+	baselinePath      string
+	fnAlias           = map[*ssa.Function]string{}
+	fieldAlias        = map[*types.Var]string{}
 )
 
 func qual(p *types.Package) string { return short(p.Path()) }
@@ -177,7 +180,16 @@ func namedStructs(prog *ssa.Program) map[string]*types.Struct {
 func writeBaseline(prog *ssa.Program, all map[*ssa.Function]bool, path string) error {
 	bl := baseline{Note: "symbols of the tree on which the rule instances were confirmed; written by jivacheck -write-baseline; see checker/symbols.go"}
 	for _, f := range topLevelFns(all) {
-		bl.Funcs = append(bl.Funcs, describeFn(f))
+		d := describeFn(f)
+		if a, ok := pureBoolTemplate(f); ok {
+			d.Bool = a.String()
+		} else if s, ok := exactBoolString(f); ok {
+			d.Bool = s
+		}
+		if v, ok := pureValue(f); ok {
+			d.Value = v
+		}
+		bl.Funcs = append(bl.Funcs, d)
 	}
 	sts := namedStructs(prog)
 	var names []string
@@ -239,6 +251,9 @@ func applyBaseline(prog *ssa.Program, all map[*ssa.Function]bool) []string {
 	baselineFns = map[string]bool{}
 	for _, b := range bl.Funcs {
 		baselineFns[b.Name] = true
+		if b.Bool != "" || b.Value != "" {
+			baselineTemplates[b.Name] = b
+		}
 	}
 	var notes []string
 	// named types first: their names are part of method names and of every rendered type
@@ -307,6 +322,21 @@ func applyBaseline(prog *ssa.Program, all map[*ssa.Function]bool) []string {
 		}
 		sort.Slice(cs, func(i, j int) bool { return cs[i].s > cs[j].s })
 		if len(cs) == 0 {
+			// same identifier, same package, different shape (method <-> function, a parameter
+			// added or dropped): still the same mechanism when the body resembles
+			var same []*ssa.Function
+			for _, f := range fresh {
+				if !used[f] && f.Pkg != nil && short(f.Pkg.Pkg.Path()) == b.Pkg && f.Name() == baseIdent(b.Name) {
+					same = append(same, f)
+				}
+			}
+			if len(same) == 1 {
+				if s := jaccard(b.Features, describeFn(same[0]).Features); s >= 0.6 {
+					fnAlias[same[0]] = b.Name
+					used[same[0]] = true
+					notes = append(notes, fmt.Sprintf("function %s is addressed as %s (same name, receiver / parameters changed; body similarity %.2f)", short(same[0].String()), b.Name, s))
+				}
+			}
 			continue
 		}
 		if cs[0].s >= 0.6 && (len(cs) == 1 || cs[1].s <= cs[0].s-0.25) {
@@ -342,16 +372,25 @@ func applyBaseline(prog *ssa.Program, all map[*ssa.Function]bool) []string {
 				added = append(added, st.Field(i))
 			}
 		}
+		// per type: the k-th missing field of that type is the k-th added field of that type
+		// (declaration order), provided the counts agree
+		byTypeM := map[string][]baseField{}
 		for _, m := range missing {
-			var match []*types.Var
-			for _, v := range added {
-				if types.TypeString(v.Type(), qual) == m.Type && fieldAlias[v] == "" {
-					match = append(match, v)
-				}
+			byTypeM[m.Type] = append(byTypeM[m.Type], m)
+		}
+		byTypeA := map[string][]*types.Var{}
+		for _, v := range added {
+			t := types.TypeString(v.Type(), qual)
+			byTypeA[t] = append(byTypeA[t], v)
+		}
+		for t, ms := range byTypeM {
+			as := byTypeA[t]
+			if len(as) != len(ms) {
+				continue
 			}
-			if len(match) == 1 {
-				fieldAlias[match[0]] = m.Name
-				notes = append(notes, fmt.Sprintf("field %s.%s is addressed as %s (renamed; same struct and type)", bs.Name, match[0].Name(), m.Name))
+			for k, m := range ms {
+				fieldAlias[as[k]] = m.Name
+				notes = append(notes, fmt.Sprintf("field %s.%s is addressed as %s (renamed; same struct, type and declaration order)", bs.Name, as[k].Name(), m.Name))
 			}
 		}
 	}
@@ -397,4 +436,12 @@ func isFreshFn(h *ssa.Function) bool {
 		return false
 	}
 	return !baselineFns[FnName(h)]
+}
+
+// baseIdent: the bare identifier of a rendered function name ("(*p.T).m" -> "m", "p.f" -> "f").
+func baseIdent(name string) string {
+	if i := strings.LastIndex(name, "."); i >= 0 {
+		return name[i+1:]
+	}
+	return name
 }
